@@ -355,3 +355,100 @@ pub fn run_history(v: &Value, hid: u64) -> Vec<String> {
     }
     lines
 }
+
+
+/// C11: walk one section, deleting the record under the cursor iff its identity (the 4 TTL bytes
+/// for records, "q" for the question) is in `del`; optionally delete twice.  One line per walk.
+pub fn run_walk(v: &Value) -> Option<String> {
+    let pkt = vbytes(&v["pkt"]);
+    let mut pp = match guarded(|| DNSSector::new(pkt.clone()).and_then(|d| d.parse())) {
+        Ok(Ok(pp)) => pp,
+        _ => return None,
+    };
+    let sec = v["sec"].as_str().unwrap_or("AN").to_string();
+    let incl = v["incl"].as_bool().unwrap_or(false);
+    let twice = v["twice"].as_bool().unwrap_or(true);
+    let del: Vec<Vec<u8>> = v["del"].as_array().map(|a| a.iter().map(vbytes).collect()).unwrap_or_default();
+    let del_q = v["del_q"].as_bool().unwrap_or(false);
+    let max_yields = vusize(&v["max_yields"]).max(8);
+    let mc0 = pp.maybe_compressed;
+    let mut ys: Vec<String> = vec![];
+    let mut ended = "end";
+    let r = guarded(|| {
+        let mut cur: Option<Cur> = match sec.as_str() {
+            "Q" => pp.into_iter_question().map(Cur::Q),
+            "AN" => pp.into_iter_answer().map(Cur::R),
+            "NS" => pp.into_iter_nameservers().map(Cur::R),
+            _ => (if incl { pp.into_iter_additional_including_opt() } else { pp.into_iter_additional() }).map(Cur::R),
+        };
+        while let Some(mut c) = cur {
+            if ys.len() >= max_yields {
+                ended = "too-many-yields";
+                return;
+            }
+            let obs = c.obs();
+            let hit = match &c {
+                Cur::Q(_) => del_q,
+                Cur::R(i) => del.iter().any(|d| d[..] == i.rr_ttl().to_be_bytes()[..]),
+            };
+            let (mut d1, mut d2) = (("na".to_string(), String::new()), ("na".to_string(), String::new()));
+            if hit {
+                d1 = match &mut c {
+                    Cur::Q(i) => res_of(i.delete()),
+                    Cur::R(i) => res_of(i.delete()),
+                };
+                if twice {
+                    d2 = match &mut c {
+                        Cur::Q(i) => res_of(i.delete()),
+                        Cur::R(i) => res_of(i.delete()),
+                    };
+                }
+            }
+            ys.push(format!(
+                "{{\"obs\":{},\"hit\":{},\"d1\":\"{}\",\"d1e\":{},\"d2\":\"{}\",\"d2e\":{},\"tomb\":{},\"bytes\":{},\"view\":{}}}",
+                obs,
+                hit,
+                d1.0,
+                jstr(&d1.1),
+                d2.0,
+                jstr(&d2.1),
+                match &c {
+                    Cur::Q(i) => i.is_tombstone(),
+                    Cur::R(i) => i.is_tombstone(),
+                },
+                jbytes(c.pp().packet()),
+                view_json(c.pp())
+            ));
+            cur = match c {
+                Cur::Q(i) => i.next().map(Cur::Q),
+                Cur::R(i) => (if incl { i.next_including_opt() } else { i.next() }).map(Cur::R),
+            };
+        }
+    });
+    let res = if r.is_err() { "panic" } else { ended };
+    let post = guarded(|| (pp.packet().to_vec(), view_json(&pp)));
+    let (postb, view) = match post {
+        Ok(x) => x,
+        Err(()) => (vec![], "{}".to_string()),
+    };
+    let reparse = match guarded(|| DNSSector::new(postb.clone()).and_then(|d| d.parse()).map(|p| view_json(&p))) {
+        Ok(Ok(v)) => format!("{{\"res\":\"ok\",\"view\":{}}}", v),
+        Ok(Err(_)) => "{\"res\":\"err\",\"view\":{}}".to_string(),
+        Err(()) => "{\"res\":\"panic\",\"view\":{}}".to_string(),
+    };
+    Some(format!(
+        "{{\"k\":\"walk\",\"pre\":{},\"mc0\":{},\"sec\":{},\"incl\":{},\"twice\":{},\"del\":{},\"del_q\":{},\"res\":\"{}\",\"ys\":[{}],\"post\":{},\"view\":{},\"reparse\":{}}}",
+        jbytes(&pkt),
+        mc0,
+        jstr(&sec),
+        incl,
+        twice,
+        v["del"],
+        del_q,
+        res,
+        ys.join(","),
+        jbytes(&postb),
+        view,
+        reparse
+    ))
+}
